@@ -445,7 +445,54 @@ def r6(F, rep, rid="C02-R6"):
         raise AnalysisBroken("%s: no line-skipping loop found (the XYZ reader expected)" % rid)
 
 
+def r7(F, rep, rid="C02-R7"):
+    rep.rule(rid, "a reader that cannot go back visits the atoms in increasing order: in a function that skips forward to wanted "
+                  "lines (the line cursor of R6), the sequence of wanted numbers is taken from the accessor that returns the "
+                  "member which create_sorted_ids() fills, not from the list in the user's order -- with a group listed out of "
+                  "order the reader would silently take other atoms' lines")
+    srt = F.one("colvarmodule::atom_group::create_sorted_ids")
+    from .rules_c10 import lvalue_writes, member_root
+    # members that create_sorted_ids() assigns (plain assignment, also of an element) or resizes -- not those it merely reads
+    sorted_members = set()
+    for w, t in lvalue_writes(srt):
+        mr = member_root(t)
+        if mr is None:
+            continue
+        if (w["k"] in ("BinaryOperator", "CXXOperatorCallExpr") and w.get("op") == "=") or \
+           (w["k"] == "CXXMemberCallExpr" and X.callee_name(w) in ("resize", "assign", "push_back")):
+            sorted_members.add(mr["q"])
+    n = 0
+    for f in sorted(F.funcs.values(), key=lambda g: g.q):
+        if "/src/" not in f.file or f.body is None:
+            continue
+        for w in f.walk():
+            if w["k"] != "WhileStmt" or not X.kids(w):
+                continue
+            cs = X.strip(X.kids(w)[0])
+            if cs["k"] != "BinaryOperator" or cs.get("op") not in ("<", "<=") or not any(c["k"] == "CallExpr" and X.callee_name(c) == "getline" for c in f.walk(w)):
+                continue
+            wanted = [y for y in f.walk(X.kids(cs)[1]) if y["k"] == "DeclRefExpr" and y.get("st") == "local"]
+            for y in wanted:
+                decl = [d for d in f.walk() if d["k"] == "VarDecl" and d.get("d") == y.get("d")]
+                if not decl or not X.kids(decl[0]):
+                    continue
+                srcs = [c for c in f.walk(X.kids(decl[0])[0]) if c["k"] == "CXXMemberCallExpr" and F.funcs.get(c.get("callee")) is not None]
+                for c in srcs:
+                    acc = F.funcs[c["callee"]]
+                    ret = {m["q"] for r in acc.walk() if r["k"] == "ReturnStmt" for m in acc.walk(r) if m["k"] == "MemberExpr" and m.get("dk") == "Field"}
+                    if not ret:
+                        continue
+                    n += 1
+                    ok = bool(ret & sorted_members)
+                    rep.add(rid, "%s|%s" % (f.q, y.get("n")), f.loc(decl[0]), "%s: the wanted line numbers `%s` come from %s(), which returns %s" % (
+                        f.q, y.get("n"), acc.q, sorted(q.split("::")[-1] for q in ret)), ok,
+                        detail="only the sorted list is increasing; its caller puts the coordinates back in the group's own order afterwards", func=f.q)
+    if n < 1:
+        raise AnalysisBroken("%s: no forward-skipping reader whose wanted numbers come from an accessor found" % rid)
+
+
 def run(F, rep, tier):
+    r7(F, rep)
     r6(F, rep)
     r1(F, rep)
     r2(F, rep)
